@@ -25,7 +25,7 @@ checks = {
    note="As C01."),
  "C07": dict(engine="diffmon", tech="runtime monitoring of termination by a logical tick budget hooked into every run loop; panics recovered per case, fatal runtime errors confined to worker processes; error-path family expects an error value", ref="5/C07",
    text="Exploration: 'terminates' is decided as bounded progress (8 x 309 x (executed + length + 64) loop iterations), over stress programs aimed at the drain/flush/pending-fetch machinery and over programs that reach a defined error.",
-   note="A loop without a tick would only be caught by the 300 s wall-clock back-stop (reported as inconclusive); tools/audit_ticks.py checks every non-range for-loop under proc/mvp*/ has a tick."),
+   note="A loop without a tick would only be caught by the 900 s wall-clock back-stop (reported as inconclusive); tools/audit_ticks.py checks every non-range for-loop under proc/mvp*/ has a tick."),
  "C09": dict(engine="diffmon", tech=DIFF+" on programs with controlled tails before the exit point", ref="5/C09",
    text="Exploration over tails of 1-5 long- and short-latency instructions directly before ret / the end / a jump to an end label on MVP-4..8.",
    note="As C01."),
